@@ -184,6 +184,7 @@ func (el *eventloop) enroll(c net.Conn, addr net.Addr, ctx any) (resCh chan Regi
 			return
 		}
 
+		gc.addrsBorrowed = true
 		gc.SetContext(ctx)
 		gc.SetSafeContext(ctx)
 
